@@ -1,14 +1,36 @@
 package stores
 
 import (
+	"io"
+	"log"
 	"os"
 	"testing"
+
+	pslog "github.com/elementsproject/peerswap/log"
 
 	"verifharness/stats"
 )
 
+type nopLogger struct{}
+
+func (nopLogger) Infof(string, ...any)  {}
+func (nopLogger) Debugf(string, ...any) {}
+
 func TestMain(m *testing.M) {
+	log.SetOutput(io.Discard)
+	pslog.SetLogger(nopLogger{})
 	code := m.Run()
 	stats.Flush()
 	os.Exit(code)
+}
+
+// fastTempDir prefers a memory-backed directory: peersync.NewStore opens bolt
+// with fsync on every commit, which dominates the run time on disk.
+func fastTempDir(prefix string) string {
+	for _, base := range []string{"/dev/shm", ""} {
+		if d, err := os.MkdirTemp(base, prefix); err == nil {
+			return d
+		}
+	}
+	panic("no temp dir")
 }
